@@ -1,7 +1,9 @@
 (* Executable entry points for the C15 correspondence shards.
    One case = one websocket session against a fresh `adlt remote` process:
-     (first stream id, list of items);  item = (events seen before the reply: FileInfo counters and
-     done-notifications in order, frame text, oracle inputs).
+     (first stream id, list of items);  item = (events seen before the reply: FileInfo counters,
+     done-notifications and - TLcs - the lifecycle table the opened file makes the lifecycle thread publish
+     (key -> value bag, computed by the harness in-process with the library's parser and lifecycle detector, handed
+     over in the pass whose FileInfo reports all messages of the file) in order, frame text, oracle inputs).
    Observation = T [ T [per command: T [reply] | T [L 9] (connection dead / no reply)] ; L connection_alive ]. *)
 From Coq Require Export String.
 From Coq Require Import List NArith ZArith Bool Ascii.
